@@ -154,7 +154,7 @@ def reset_reuse(ctx, i):
     *other units* -- for the rerun: the rerun must stop at the same instant with the same history (1e-9)"""
     rng = ctx.rng('reuse', i)
     case = {'kind': 'resetreuse', 'index': i}
-    spec = GEN.gen_scenario(rng, dict(p_continue=0.0, p_reset=0.0, n_lo=15, n_hi=60, p_currents=0.8, p_selflock=0.1, p_ic_zero=0.0, p_inplace_args=0.0))
+    spec = GEN.gen_scenario(rng, dict(p_continue=0.0, p_reset=0.0, n_lo=15, n_hi=60, p_currents=0.8, p_selflock=0.1, p_ic_zero=0.0, p_inplace_args=0.0, p_noload_start=0.0))
     try:
         b0, r0, t0 = execute(spec)
     except Exception as ex:
@@ -214,10 +214,12 @@ def reset_reuse(ctx, i):
     if t2.n != t1.n:
         ctx.violation('C16:reused-condition-stops-at-another-instant-after-reset', wit, case)
         return
-    for ea, eb in zip(t1.els, t2.els):
+    for ei_, (ea, eb) in enumerate(zip(t1.els, t2.els)):
         for v in ea['vars']:
             sa_, sb_ = ea['vars'][v], eb['vars'].get(v, [])
-            sc = max([abs(x) for x in sa_ if math.isfinite(x)] or [0.0])
+            # scale of the variable: over the stopped run AND the full-length baseline of the same model (a run stopped after
+            # one or two instants says little about the magnitude of its own variables)
+            sc = max([abs(x) for x in list(sa_) + list(t0.els[ei_]['vars'].get(v, ())) if math.isfinite(x)] or [0.0])
             if 'torque' in v:
                 sc = max([sc] + [abs(x) for v2 in ('torque', 'driving torque', 'load torque') for x in ea['vars'].get(v2, ()) if math.isfinite(x)])
             sq_ = v == 'contact stress'          # square root of the force: compared in the squares next to zero (appendix A24)
